@@ -399,7 +399,6 @@ def run_case(case, keep_log=False):
     stats = {"faults": faults, "probes": probes, "counters": counters, "states": states,
              "max_depth": max_depth, "max_events": max_events,
              "maxima": {"python_call_depth_in_one_call": max_depth, "call_events_in_one_call": max_events}}
-    log.add("monitor", max_depth, max_events)
     out = {"violation": violation, "digest": log.digest(), "stats": stats}
     if keep_log:
         out["log"] = log.records
